@@ -900,6 +900,11 @@ func GenC01(rng *rand.Rand, thorough bool, emit func(*Sx)) {
 					f.expect(250)
 					p := DefaultPlan()
 					p.Sizes = [][]int{{4096}, {1}, {7}, {3, 1, 2}}[n%4]
+					if cfg.LMTPSession {
+						// a per-recipient backend that makes up its mind before it reads the message
+						p.Status = []StatusCall{{Addr: "r@ok", Err: BNil}}
+						p.Early = n%2 == 0
+					}
 					if n%3 == 0 {
 						f.script.Data = []DataPlan{DefaultPlan(), p}
 					} else {
@@ -1257,20 +1262,52 @@ func GenC07(rng *rand.Rand, thorough bool, emit func(*Sx)) {
 					}
 				}
 			}
-			// --- the client abandons a chunked transfer ---
-			for _, ab := range []string{"RSET", "QUIT", "EHLO again", "LHLO again", "NOOP", ""} {
-				f := newF(cfg)
-				f.hello()
-				f.cmd("MAIL FROM:<s@ok>", 250)
-				f.cmd("RCPT TO:<r0@ok>", 250)
-				f.cmd("BDAT 5", 250)
-				f.raw("first")
-				f.known = false
-				if ab != "" {
-					f.cmd(ab)
+			// --- the client abandons a chunked transfer (also: after a transaction that was completed
+			// with BDAT ... LAST or with DATA on the same connection) ---
+			for _, prior := range []string{"", "bdat", "data", "bdat-bdat"} {
+				for ai, ab := range []string{"RSET", "QUIT", "EHLO again", "LHLO again", "NOOP", ""} {
+					for ti, term := range terms {
+						if prior == "" && ti > 0 {
+							continue
+						}
+						if !thorough && prior != "" && (ai+ti)%2 != 0 {
+							continue
+						}
+						f := newF(cfg)
+						f.hello()
+						done := int64(0)
+						for _, pk := range strings.Split(prior, "-") {
+							switch pk {
+							case "bdat":
+								f.cmd("MAIL FROM:<p@ok>", 250)
+								f.cmd("RCPT TO:<r0@ok>", 250)
+								f.cmd("BDAT 3", 250)
+								f.raw("abc")
+								f.cmd("BDAT 2 LAST", 250)
+								f.raw("de")
+								done++
+							case "data":
+								f.cmd("MAIL FROM:<p@ok>", 250)
+								f.cmd("RCPT TO:<r0@ok>", 250)
+								f.cmd("DATA", 354)
+								f.raw("complete\r\n.\r\n")
+								f.expect(250)
+								done++
+							}
+						}
+						f.cmd("MAIL FROM:<s@ok>", 250)
+						f.cmd("RCPT TO:<r0@ok>", 250)
+						f.cmd("BDAT 5", 250)
+						f.raw("first")
+						f.known = false
+						if ab != "" {
+							f.cmd(ab)
+						}
+						// only the completed messages end with EOF; the abandoned one never does
+						f.add(L(A("max-eof"), Num(done)))
+						emit(RunConv(f.caseOf("C07", segStream(rng, f.out, nil, 0, term))))
+					}
 				}
-				f.add(L(A("forbid-eof")))
-				emit(RunConv(f.caseOf("C07", segStream(rng, f.out, nil, 0, rawEOF))))
 			}
 		}
 	}
